@@ -101,6 +101,14 @@ fn insert_toggles(p: &Prog, t: &mut Tape) -> Prog {
         let a = t.below(n as u32 + 1) as usize;
         ins.push((a, ctok(t.pick_str(ON), true, 0)));
     }
+    // not between `class` and `of` / `;`: an own-line comment there makes the parser open a class
+    // body (finding F-C14-comment-class-of; the comment generator avoids the spot as well)
+    ins.retain(|(a, _)| {
+        !(*a > 0
+            && *a < n
+            && p.toks[*a - 1].text.eq_ignore_ascii_case("class")
+            && (p.toks[*a].text.eq_ignore_ascii_case("of") || p.toks[*a].text == ";"))
+    });
     ins.sort_by_key(|x| x.0);
     // where do the toggles fall? (signatures of findings about regions that cut a statement)
     let mut placement: Vec<&'static str> = vec![];
